@@ -311,7 +311,15 @@ class CancelScope(AbstractCancelScope):
             self.__host_task_cancel_calls -= 1
             if host_task.uncancel() <= self.__host_task_cancelling:
                 return True
-        return self.__cancellation_id() in exc.args
+        if self.__cancellation_id() not in exc.args:
+            return False
+        # This is our cancellation, but do not swallow it if somebody else asked for the task to be cancelled meanwhile
+        # (asyncio delivers a single exception for both requests), like asyncio.timeout() does.
+        # Our own requests have been taken back and the enclosing cancelled scopes deliver theirs again on their own:
+        # only a task.cancel() issued from outside can explain a higher count than on entry.
+        pending_requests = host_task.cancelling() - self.__host_task_cancelling
+        parent_scopes_requests = sum(scope.__host_task_cancel_calls for scope in self._inner_to_outer_task_scopes(host_task))
+        return pending_requests <= parent_scopes_requests
 
     def __deliver_cancellation(self) -> None:
         if self.__host_task is None:
